@@ -170,6 +170,11 @@ type axisState struct {
 	last    *big.Rat
 	dir     int   // key emulation: 0 off, +1, -1
 	actDir  int   // action axis: the direction whose action the axis currently holds
+	// actSide: the physical side (sign of the raw position relative to rest) on which that action was triggered
+	actSide int
+	// edge: the previous event of this axis sat exactly on a deadzone boundary and was not judged: whether the
+	// implementation took it for "inside" (and remembers the rest value) or for "just outside" is open
+	edge bool
 	pair    *Pair // what the sounding direction was started with (nil when that direction is silent)
 	ccOwner bool
 }
